@@ -118,7 +118,7 @@ C10_RefMatchesTask(job, pods) ==
         (p.name = r.name /\ ~Alive(p) /\ r.res \in {"Succeeded", "Failed"}) =>
             (r.res = "Succeeded" <=> (p.phase = "Succeeded" /\ ~p.oom))
 C10_NoLiveAtFinishStep(job, jobN, podsN) ==
-    (jobN.ex /\ jobN.kind = "Finished" /\ job.kind # "Finished" /\ ~jobN.del /\ jobN.result # "AdmissionError")
+    (jobN.ex /\ jobN.kind = "Finished" /\ job.kind # "Finished" /\ ~jobN.del)
         => ~\E p \in Mine(podsN) : Alive(p)
 \* once decided (as recorded) the Job reaches that result
 \* a task on an unresponsive node that may not be force-deleted legitimately keeps the Job from finishing
